@@ -3,7 +3,7 @@
    OCaml's); no Extract Constant / Extract Inductive of our own: N, positive, nat, byte stay
    inductive. *)
 From Coq Require Import ExtrOcamlBasic.
-Require Import RV.Model.Bytes RV.Gen.Tables RV.Model.Tag RV.Model.Message RV.Spec.RefCodec RV.Model.Sha512 RV.Model.Merkle RV.Spec.RefMerkle RV.Model.Request RV.Model.Keys RV.Model.Server RV.Spec.RefVerify RV.Model.Sign RV.Model.Stats RV.Model.Envelope RV.Model.Config RV.Model.Client.
+Require Import RV.Model.Bytes RV.Gen.Tables RV.Model.Tag RV.Model.Message RV.Spec.RefCodec RV.Model.Sha512 RV.Model.Merkle RV.Spec.RefMerkle RV.Model.Request RV.Model.Keys RV.Model.Server RV.Spec.RefVerify RV.Model.Sign RV.Model.Stats RV.Model.Envelope RV.Model.Config RV.Model.ConfigLoad RV.Model.GenSupport RV.Model.LoadModel RV.Model.Client.
 Extraction Language OCaml.
 Extraction "Extract/model.ml"
   all_tags tag_wire tag_rank tag_nested tag_display
@@ -17,5 +17,5 @@ Extraction "Extract/model.ml"
   signer_from_seed run_signer messages run_verifier
   pc_new pc_run pc_total pc_total_bytes agg_run cs_get rep_receive q_run
   parse_blob decrypt_seed encrypt_seed
-  effective is_valid_config
+  effective is_valid_config file_load env_load parse_uint to_dec hex_decode
   make_request client_handle client_run exit_zero.
